@@ -69,6 +69,13 @@ class World:
         self.ix_used = True
         return self.uf('ix', z3.IntSort(), z3.IntSort(), z3.IntSort())(off, i)
 
+    def fdiv(self, x, y):
+        """float division: exact when the divisor is a numeral (linear), otherwise an uninterpreted function of both
+        operands (the same on the code side and on the contract side), which keeps nonlinear real arithmetic out of the VCs"""
+        if z3.is_rational_value(y) or z3.is_int_value(y):
+            return x / y
+        return self.uf('fdiv', z3.RealSort(), z3.RealSort(), z3.RealSort())(x, y)
+
     def strlit(self, s):
         if s not in self.strlits:
             self.strlits[s] = z3.Const('str!%d' % len(self.strlits), self.Str)
